@@ -46,6 +46,10 @@ const (
 	limit = 3000
 )
 
+// atOf is the artifact type of the abstract type name: a structured-syntax suffix makes it a string that has to be
+// escaped in a query ("+" means a space there).
+func atOf(name string) string { return "application/vnd." + name + "+json" }
+
 func item(i int) string { return fmt.Sprintf("item%d", i) }
 func itemIndex(s string) int {
 	n, _ := strconv.Atoi(strings.TrimPrefix(s, "item"))
@@ -56,7 +60,7 @@ var subject = ocispec.Descriptor{MediaType: ocispec.MediaTypeImageManifest, Dige
 
 func refDesc(i int, at string) ocispec.Descriptor {
 	return ocispec.Descriptor{MediaType: ocispec.MediaTypeImageManifest, Digest: digest.FromString(item(i)), Size: int64(100 + i),
-		ArtifactType: "application/vnd." + at, Annotations: map[string]string{"idx": strconv.Itoa(i)}}
+		ArtifactType: atOf(at), Annotations: map[string]string{"idx": strconv.Itoa(i)}}
 }
 
 type counting struct {
@@ -93,7 +97,7 @@ func (s *server) RoundTrip(req *http.Request) (*http.Response, error) {
 	if vs := q["n"]; len(vs) > 0 {
 		n, _ = strconv.Atoi(vs[len(vs)-1])
 	}
-	filter := strings.TrimPrefix(q.Get("artifactType"), "application/vnd.")
+	filter := strings.TrimSuffix(strings.TrimPrefix(q.Get("artifactType"), "application/vnd."), "+json")
 	s.reqs = append(s.reqs, reqRec{After: after, N: n, Path: req.URL.Path, Query: req.URL.RawQuery, Filter: filter})
 	pageno := len(s.reqs)
 	if pageno > 3*s.c.Len+6 {
@@ -313,7 +317,7 @@ func TestDrive(t *testing.T) {
 			r.SetReferrersCapability(false)
 			at := ""
 			if c.Filter != "" {
-				at = "application/vnd." + c.Filter
+				at = atOf(c.Filter)
 			}
 			pages := [][]int{}
 			errGone := fmt.Errorf("referrer is gone: %w", errdef.ErrNotFound)
@@ -391,7 +395,7 @@ func TestDrive(t *testing.T) {
 				r.SetReferrersCapability(true)
 				at := ""
 				if c.Filter != "" {
-					at = "application/vnd." + c.Filter
+					at = atOf(c.Filter)
 				}
 				callErr = r.Referrers(ctx, subject, at, func(ds []ocispec.Descriptor) error {
 					idx := []int{}
